@@ -51,7 +51,7 @@ var entryTokens = []string{
 }
 
 // additional tokens for C02 (pasting safety)
-var entryTokensC02 = []string{"\t", "\x01", "\x7f", `\x22`, `\Q"\E`, `\x{2019}`, `\(?-s:`, `\)`, `(?s:.)`, `(?i:a)`}
+var entryTokensC02 = []string{"\t", "\x01", "\x7f", `\x22`, `\Q"\E`, `\x{2019}`, `\x{fffd}`, `\(?-s:`, `\)`, `(?s:.)`, `(?i:a)`}
 
 var inlineFlag = regexp.MustCompile(`\(\?[a-zA-Z-]+[:)]`)
 
@@ -113,7 +113,8 @@ var structLines = []string{"a", "b|c", "ab", "##!=>", "##!=< x", "##!=> x", "##!
 
 // structLines2: the structural alphabet plus comments, blank and indented lines, a second stored name, the other
 // shell, and header lines (they apply to the whole file wherever they stand)
-var structLines2 = append(append([]string{}, structLines...), "##! c", "", "  a", "##!=< y", "##!=> y", "##!> cmdline windows", "##!^ p", "##!$ s", "##!+ i")
+var structLines2 = append(append([]string{}, structLines...), "##! c", "", "  a", "##!=< y", "##!=> y", "##!> cmdline windows", "##!^ p", "##!$ s", "##!+ i",
+	"##!> include incd", "##!> define d o", "{{d}}b", "a~", "b@")
 
 // wellFormedBody: balanced, names stored before use, markers only in assemble blocks,
 // cmdline blocks contain only words (entries) or nested blocks.
